@@ -3,7 +3,9 @@ engine `coll` — correspondence between the slot-level collection model (lean/B
 `driver coll`) and the real collection types of the crate (harness/src/bin/coll.rs), plus the direct
 oracles the harness evaluates on the implementation (C06 exactly-once drop accounting incl. a panic at
 every callback index and panicking `Drop`s, C08 agreement with std::vec::Vec + capacity promises,
-C16 exact partition by split/merge).
+C16 exact partition by split/merge; profile `failing`: C07 collection clause — every growing operation on a vector whose
+reservation is refused (refusing base allocator / full FixedBumpVec / capacity overflow, incl. BumpVec::splice with a lying
+size_hint) leaves it as it was: `run_coll(ctx, rounds, 1, "failing", oracle_props=["C07"])`).
 
 Harness lines:   `new …` / `op … => <observed>` / `drop … => <observed>` are sent to the driver
 (the part before ` => `) and its answer is compared VERBATIM with the observed part;
@@ -29,7 +31,7 @@ def run_coll(ctx, traces, ops, profile, oracle_props=None, seed_offset=0, label=
     if not ok:
         return False
     if not any(o["name"] == "build:driver" for o in ctx.obligations):
-        if not build_driver(ctx):
+        if not build_driver(ctx, "coll"):
             return False
     exe = bin_path("coll")
     env = dict(os.environ, VERIF_SEED=str(ctx.seed + seed_offset))
